@@ -5,6 +5,8 @@ from .. import common, driver, gen, impl
 from .. import framework as fw
 
 GEN_SECTIONS = ["Unicode", "Regexes", "Tables"]
+LEAVES = {'LoopField': []}
+IMP = ['parseAllLinesForField']  # functions dumped as terms of the imperative embedding, run against CPython on every run
 TRUSTED = [
     "Lean 4 kernel; axioms ⊆ {propext, Classical.choice, Quot.sound}",
     "translator: the 24 field recognisers, processing functions (probed), dataclass defaults, field order",
